@@ -51,6 +51,20 @@ func (k Keeper) CheckAndLiquidateUnhealthyPosition(ctx sdk.Context, mtp *types.M
 
 	k.SetPool(ctx, pool)
 
+	// settling interest and funding changed custody and the amm pool balance even when the position
+	// stays open: let the hooks (accounted pool) see the new values
+	if k.hooks != nil {
+		ammPool, err = k.GetAmmPool(ctx, mtp.AmmPoolId)
+		if err != nil {
+			return err
+		}
+		params := k.GetParams(ctx)
+		err = k.hooks.AfterPerpetualPositionModified(ctx, ammPool, pool, mtp.GetAccountAddress(), params.EnableTakeProfitCustodyLiabilities)
+		if err != nil {
+			return err
+		}
+	}
+
 	// check MTP health against threshold
 	safetyFactor := k.GetSafetyFactor(ctx)
 
